@@ -886,6 +886,10 @@ def z9(spec):
     wing.update(_tube_props(struct_weight_relief=True))
     tail = _aero_surface("tail", mesh2, False, np.array([0.0]), viscous=True, thickness_cp=np.array([0.03]))
     tail.update(_tube_props(struct_weight_relief=True))
+    if spec.get("stiff"):
+        for s_ in (wing, tail):
+            s_["E"] *= spec["stiff"]
+            s_["G"] *= spec["stiff"]
     flight = _as_flight()
     flight["beta"] = (1.0, "deg")
     prob, coupled = _as_problem(spec, [wing, tail], flight)
@@ -908,6 +912,9 @@ def _wingbox_surface(spec, nx, ny, n_cp=3, **kw):
     s = _aero_surface("wing", mesh, True, np.linspace(4.0, 9.0, n_cp), viscous=True, wave=True, CD0=0.0078,
                       t_over_c_cp=np.linspace(0.08, 0.10, n_cp), c_max_t=0.38)
     s.update(_wingbox_props(n_cp, **kw))
+    if spec.get("stiff"):
+        s["E"] *= spec["stiff"]
+        s["G"] *= spec["stiff"]
     return md, mesh, s
 
 
@@ -945,6 +952,9 @@ def z11(spec):
     md, mesh, twist_cp = _gen_mesh("CRM", nx, ny, True, num_twist_cp=3)
     s = _aero_surface("wing", mesh, True, twist_cp, viscous=True, thickness_cp=np.array([0.1, 0.2, 0.3]))
     s.update(_tube_props())
+    if spec.get("stiff"):
+        s["E"] *= spec["stiff"]
+        s["G"] *= spec["stiff"]
     if ground:
         s["groundplane"] = True
     flight = _as_flight()
